@@ -265,14 +265,27 @@ def gen_db_case(rng, kind):
     for _ in range(rng.choice([4, 6, 9])):
         c = rng.randrange(nconn)
         r = rng.random()
-        if r < 0.25:
+        if r < 0.22:
             prog.append(['read', c])
-        elif r < 0.65:
+        elif r < 0.58:
             prog.append(['write', c, spec()])
+        elif r < 0.66:
+            prog.append(['savepoint', c])      # the data then reaches the storage through _commit_savepoint
+        elif r < 0.74:
+            # a competing revision committed through the storage API directly (a storage-level tool, a
+            # second DB, a storage server): no invalidation is queued for the connections
+            prog.append(['rawwrite', c, rng.randrange(1000)])
         elif r < 0.95:
             prog.append(['commit', c])
         else:
             prog.append(['abort', c])
+    if rng.random() < 0.3:
+        # directed: writer with a savepoint loses against a raw storage commit and is merged
+        c = rng.randrange(nconn)
+        k = rng.randrange(len(prog) + 1)
+        prog[k:k] = [['abort', c], ['read', c], ['write', c, spec()], ['savepoint', c],
+                     ['rawwrite', c, rng.randrange(1000)], ['commit', c], ['read', c], ['write', c, spec()],
+                     ['commit', c]]
     for c in range(nconn):
         prog.append(['commit', c])
     return dict(section='db', kind=kind, xcls=xcls, nconn=nconn, init=spec(), prog=prog)
@@ -377,6 +390,25 @@ class World:
                 pass
 
 
+def raw_write(w, n, log):
+    """commit a new revision of X through the storage API (recorded like every other call)"""
+    from ZODB.Connection import TransactionMetaData
+    st = w.storage
+    cid = getattr(K, w.case['xcls']).CID
+    args = 1 if hasattr(getattr(K, w.case['xcls']), '__getnewargs__') else 0
+    oid = L.p64(w.xoid)
+    txn = TransactionMetaData()
+    st.tpc_begin(txn)
+    try:
+        st.store(oid, st.getTid(oid), L.make_pickle(cid, args, n), '', txn)
+        st.tpc_vote(txn)
+        tid = st.tpc_finish(txn)
+        log.append(('rawwrite', L.u64(tid), n))
+    except Exception:
+        st.tpc_abort(txn)
+        raise
+
+
 def run_db_real(case, tmp, tag='d'):
     import clock
     import transaction
@@ -392,7 +424,12 @@ def run_db_real(case, tmp, tag='d'):
             for step in case['prog']:
                 tm, conn = conns[step[1]]
                 x = conn.root()['X']
-                if step[0] == 'read':
+                if step[0] == 'rawwrite':
+                    raw_write(w, step[2], log)
+                elif step[0] == 'savepoint':
+                    tm.savepoint()
+                    log.append(('savepoint', step[1]))
+                elif step[0] == 'read':
                     log.append(('read', step[1], live_wire(x.v, conn)))
                 elif step[0] == 'write':
                     x.v = w.build(step[2], conn)
